@@ -4,10 +4,12 @@
      g <r> st=<n:s,..|-> out=<n,..|-> e=<a>b:f,..|->     define register r
      addnode <r> <g> <n> | addedge <r> <g> <a> <b> <f> | mns <r> <g> <n> <s> | merge <r> <g> <h>
      clonereach <r> <g> <roots|->       CloneReachable
+     simplify <r> <g>                   simplifySummary
      le <g> <h> | matches <g> <h> | show <g> | chk <g>   queries, one output line each
    Output of `show` has the format of the Go hook's `Dump`. -/
 import Argot.Model.EGraph
 import Argot.Model.EGraphClone
+import Argot.Model.EGraphSimplify
 import Argot.Model.EscCore
 import Std.Data.HashMap
 open Argot.EGraph Argot.EGraph.EGraph
@@ -24,9 +26,21 @@ structure OState where
   kinds : Array Nat := #[]
   ng : NG := emptyNG 0 (fun _ => 0)
   regs : Std.HashMap String EGraph := {}
+  subMarks : List Nat := []    -- nodes declared subnodes without a modelled parent (`issub`, captured universes)
 
 def OState.n (s : OState) : Nat := s.ng.next
 def OState.intr (s : OState) : Node → Nat := s.ng.intr
+
+/-- node kind: declared for the universe; a created load node is KindLoad (2); a created field subnode has the
+kind of its base -/
+def kindOfN (s : OState) : Nat → Node → Nat
+  | 0, n => s.kinds.getD n 0
+  | f + 1, n =>
+    if n < s.n0 then s.kinds.getD n 0
+    else if (s.ng.loadBase n).isSome then 2
+    else match s.ng.par n with
+      | some (p, _) => kindOfN s f p
+      | none => 0
 
 /-- re-tabulate the node group as well -/
 def tabNG (ng : NG) : NG :=
@@ -226,6 +240,17 @@ partial def loop (h : IO.FS.Stream) (s : OState) : IO Unit := do
         else do IO.println "clonereach-worklist-not-empty"; loop h s
       else do bad; loop h s
     | _, _ => do bad; loop h s
+  | ["issub", n] =>
+    match n.toNat? with
+    | some n => loop h { s with subMarks := n :: s.subMarks }
+    | none => do bad; loop h s
+  | ["simplify", r, g] =>
+    match reg g with
+    | some g =>
+      let isLoad := fun n => kindOfN s (s.n + 1) n == 2
+      let isSub := fun n => (s.ng.par n).isSome || s.subMarks.contains n
+      loop h (put r (simplifySummary isLoad isSub g))
+    | none => do bad; loop h s
   | _ => do bad; loop h s
 
 def main : IO Unit := do loop (← IO.getStdin) {}
